@@ -276,9 +276,91 @@ def rule_read_side(ctx, db):
                "consume advances the cursor by the amount and compacts only when everything was consumed", f)
 
 
+def rule_write_side(ctx, db):
+    R = ctx.rule
+    R("R5", "LOOP/MPT", "poll-style write half: a flush is complete only when no accepted byte is pending — after every completed "
+      "flush future `has_pending_write()` is asked again before Ready(Ok) is reported (poll_flush) or the stream is shut down "
+      "(poll_close); the blocking-style refill offers the inner read at most the room the limit leaves and at least one byte")
+    AWS = "compio_io::compat::async_stream::AsyncWriteStream"
+    def meth(name):
+        return [f for f in db.fns.values() if f.impl and f.impl.get("self_adt") == AWS and f.short == name and (f.impl.get("trait") or "").endswith("AsyncWrite")]
+    if not any(f.self_adt == AWS for f in db.fns.values()):
+        return
+    for nm in ("poll_flush", "poll_close"):
+        fs = meth(nm)
+        if not fs:
+            ctx.missing("R5", "AsyncWriteStream::" + nm)
+        for f in fs:
+            fl = [bb for bb, _ in calls(f, r"AsyncWriteStream::<S>::poll_flush_impl$")]
+            hp = set(bb for bb, _ in calls(f, r"has_pending_write$"))
+            # edges that leave with an error of the flush are fine: targets of `is_err() == true` and of the `?` Break arm
+            err_t = set()
+            for cb, ct in calls(f, r"Result::<T, E>::is_err$"):
+                from ..util import bool_edges
+                for (_, tt, ft) in bool_edges(f, cb):
+                    if tt is not None:
+                        err_t.add(tt)
+            for cb, ct in calls(f, r"Try::branch$"):
+                from ..util import discr_edges
+                for (sbb, targets, ow) in discr_edges(f, cb):
+                    if "1" in targets:
+                        err_t.add(targets["1"])
+            if nm == "poll_flush":
+                goal = set(f.cfg.returns)
+                # Pending returns are fine too: exclude blocks that build Poll::Pending
+                pend = {bi for bi, si, st in f.stmts() if st.get("r", {}).get("k") == "agg" and st["r"].get("var") == "Pending"}
+            else:
+                goal = set(bb for bb, _ in calls(f, r"AsyncWriteStream::<S>::poll_close_impl$")
+                           if not any(f.cfg.dominates(bb, b2) for b2 in fl))  # the close issued after the flushing stage
+                pend = set()
+            ok = bool(fl) and bool(hp) and bool(goal)
+            leak = False
+            if ok:
+                for b in fl:
+                    # the Pending arm of `ready!` is not a completed flush: start from the Ready arm
+                    starts = []
+                    for (sbb, targets, ow) in __import__("vflib.util", fromlist=["discr_edges"]).discr_edges(f, b):
+                        if "0" in targets:
+                            starts.append(targets["0"])
+                    starts = starts or list(f.cfg.succ[b])
+                    for s0 in starts:
+                        reach = f.cfg.reach_from_block(s0, avoid=hp | err_t | pend)
+                        if reach & goal:
+                            leak = True
+            ctx.ob("R5", "flush-complete-only-when-nothing-pending:" + nm, ok and not leak,
+                   "from a completed flush future every path to %s asks has_pending_write() again (bytes accepted while the old "
+                   "flush future was still pending are flushed too)" % ("Ready(Ok)" if nm == "poll_flush" else "the shutdown"), f)
+    # blocking-style refill: room offered to the inner read
+    SRB = "compio_io::compat::sync_stream::SyncReadBuf"
+    fam = [f for f in db.fns.values() if db.root_fn(f).self_adt == SRB and db.root_fn(f).short == "fill_read_buf"]
+    okl, okm = False, False
+    for f in fam:
+        for bb, t in calls(f, r"IoBufExt::slice$"):
+            pl = op_place(t["args"][1])
+            if pl is None:
+                continue
+            locs, cr, places = data_deps(f, pl["l"])
+            if any(any(isinstance(e, list) and e[0] == "f" and e[2].endswith("max_buffer_size") for e in q["p"]) for q in places):
+                okl = True
+        for bb, t in calls(f, r"reserve_exact$"):
+            pl = op_place(t["args"][1])
+            if pl is None:
+                continue
+            locs, cr, places = data_deps(f, pl["l"])
+            for cb, ct in cr:
+                if call_matches(ct, r"core::cmp::Ord::max$") and any(str(a.get("v")) == "1" for a in ct["args"] if "k" in a):
+                    okm = True
+    if fam:
+        ctx.ob("R5", "refill-room-ends-at-the-limit", okl,
+               "the slice lent to the inner read ends at max_buffer_size (the buffer can never hold more than the limit)", fam[0])
+        ctx.ob("R5", "refill-room-at-least-one-byte", okm,
+               "the refill makes room for max(base_capacity, 1) bytes: a zero-length read would be mistaken for end-of-stream", fam[0])
+
+
 def rules_all(ctx, db):
     rules(ctx, db)
     rule_read_side(ctx, db)
+    rule_write_side(ctx, db)
 
 
 def check(tier):
